@@ -217,9 +217,12 @@ func (opt *Option) DeepCopy() Option {
 		clone.Assignments = append(clone.Assignments, assignment.DeepCopy())
 	}
 	if opt.Default != nil {
-		clone.Default = &OptionDefault{
-			ArgsValues: deepCopyValue(opt.Default.ArgsValues).([]any),
+		argsValues := make([]any, 0, len(opt.Default.ArgsValues))
+		for _, value := range opt.Default.ArgsValues {
+			argsValues = append(argsValues, deepCopyValue(value))
 		}
+
+		clone.Default = &OptionDefault{ArgsValues: argsValues}
 	}
 
 	return clone
